@@ -2,8 +2,11 @@ package symgo
 
 import (
 	"net"
+	"net/textproto"
 	"strconv"
 )
+
+func textprotoCanonical(s string) string { return textproto.CanonicalMIMEHeaderKey(s) }
 
 // Native evaluation of pure library functions on concrete arguments (the real function of the same toolchain).
 // With symbolic arguments the intrinsic declines and the real body is interpreted.
@@ -79,4 +82,68 @@ func init() {
 		}
 		return in.mkStr(strconv.Itoa(int(t.SInt())))
 	})
+}
+
+// validHeaderFieldByte mirrors net/textproto's token table (RFC 7230 tchar).
+func isTokenChar(c byte) bool {
+	switch {
+	case c >= 'a' && c <= 'z', c >= 'A' && c <= 'Z', c >= '0' && c <= '9':
+		return true
+	}
+	switch c {
+	case '!', '#', '$', '%', '&', '\'', '*', '+', '-', '.', '^', '_', '`', '|', '~':
+		return true
+	}
+	return false
+}
+
+// canonicalHeaderKey is a byte-wise model of textproto.CanonicalMIMEHeaderKey: if any byte is not a token
+// character the key is returned unchanged, otherwise letters are upper-cased at the start and after '-' and
+// lower-cased elsewhere. Validated against the real function in `vf selftest`.
+func (in *Exec) canonicalHeaderKey(s Str) Str {
+	if c, ok := s.Concrete(); ok {
+		return in.mkStr(textprotoCanonical(c))
+	}
+	tb := in.tb
+	valid := tb.True
+	for _, b := range s.B {
+		v := tb.False
+		for lo := 0; lo < 128; {
+			if !isTokenChar(byte(lo)) {
+				lo++
+				continue
+			}
+			hi := lo
+			for hi+1 < 128 && isTokenChar(byte(hi+1)) {
+				hi++
+			}
+			if lo == hi {
+				v = tb.Or(v, tb.Eq(b, tb.Const(8, uint64(lo))))
+			} else {
+				v = tb.Or(v, tb.And(tb.Ule(tb.Const(8, uint64(lo)), b), tb.Ule(b, tb.Const(8, uint64(hi)))))
+			}
+			lo = hi + 1
+		}
+		valid = tb.And(valid, in.simp(v))
+	}
+	out := make([]*Term, len(s.B))
+	upper := tb.True
+	for i, b := range s.B {
+		c := tb.Ite(upper, in.upperByte(b), in.lowerByte(b))
+		out[i] = tb.Ite(valid, c, b)
+		upper = tb.Eq(b, tb.Const(8, '-'))
+	}
+	return Str{B: out}
+}
+
+func init() {
+	canon := func(in *Exec, _ *frame, a []value) value {
+		s := a[0].(Str)
+		if s.Opaque {
+			return s
+		}
+		return in.canonicalHeaderKey(s)
+	}
+	reg("net/textproto.CanonicalMIMEHeaderKey", canon)
+	reg("net/http.CanonicalHeaderKey", canon)
 }
